@@ -63,6 +63,14 @@ def configs(prop, tier, rng):
     # every index takes the corrupted role once for n = 3 (checks that loop over "the other parties" are easily asymmetric)
     if not q or prop == "C04":
         out.append(("n3.first", c3, 3, 2, [1, 2], 0))
+    if not q:
+        # thorough: every (evaluator, corrupted party) pair
+        out.append(("n2.pe1c0", c2, 2, 1, [0, 1], 0))
+        have = {(0, 2), (1, 1), (2, 0)}
+        for pe in range(3):
+            for c in range(3):
+                if (pe, c) not in have:
+                    out.append((f"n3.pe{pe}c{c}", c3, 3, pe, [x for x in range(3) if x != (pe + 1) % 3] if (pe + c) % 2 else [0, 1, 2], c))
     return out
 
 
